@@ -141,7 +141,10 @@ func validatorFor(w *World, idx int) func(interfaces.Block, []byte) error {
 	cfg := &interfaces.Config{InstanceId: kit.Instance, Communication: &kit.Comm{}, Membership: &kit.Membership{Me: id, Committee: w.C},
 		BlockUtils: &kit.BlockUtils{Me: id}, KeyManager: &kit.KeyManager{Me: id}, OverrideElectionTrigger: &kit.FakeTrigger{}, Storage: kit.NewStore(false)}
 	v := lh.NewVerifNode(cfg, func(context.Context, interfaces.Block, []byte) error { return nil }, nil)
+	var vmu sync.Mutex
 	return func(b interfaces.Block, p []byte) (err error) {
+		vmu.Lock()
+		defer vmu.Unlock()
 		defer func() {
 			if r := recover(); r != nil {
 				err = fmt.Errorf("panic: %v", r)
@@ -402,7 +405,7 @@ func (e *Engine) computeStep(ls int, ev Event) *LRes {
 		e.Validated++
 		e.mu.Unlock()
 		if r2.Next != r.Next || sig != sig2 {
-			panic(HarnessError{fmt.Sprintf("abstraction unsound: local state %d reached by two histories reacts differently to %v:\n%s\n%s\n---\n%s\n%s", ls, ev, e.lstate(r.Next).Canon, sig, e.lstate(r2.Next).Canon, sig2)})
+			panic(HarnessError{fmt.Sprintf("abstraction unsound: local state %d reached by two histories reacts differently to %v:\n%s\n%s\n---\n%s\n%s\nhist1=%s\nhist2=%s\nev=%s", ls, ev, e.lstate(r.Next).Canon, sig, e.lstate(r2.Next).Canon, sig2, e.histStr(s.Hist), e.histStr(h2), e.histStr([]Event{ev}))})
 		}
 	}
 	return r
@@ -895,3 +898,15 @@ func (e *Engine) SampleTrace() map[string]interface{} {
 
 func (e *Engine) NumLocal() int { return e.nl }
 func (e *Engine) NumMsgs() int  { return e.nm }
+
+func (e *Engine) histStr(h []Event) string {
+	var r []string
+	for _, ev := range h {
+		if ev.Kind == 'd' {
+			r = append(r, fmt.Sprintf("d[%d:%s]", ev.Msg, e.msg(ev.Msg).Info.Desc()))
+		} else {
+			r = append(r, string(ev.Kind))
+		}
+	}
+	return strings.Join(r, "\n  ")
+}
